@@ -171,11 +171,14 @@ class LinkModel:
     """
 
     def __init__(self, chain, init_time, source_pubs=None, source_eval=None,
-                 tick_seconds=3600, now_newest=None):
+                 tick_seconds=None, now_newest=None):
         self.chain = chain
         self.init = init_time
         self.source_pubs = source_pubs
         self.source_eval = source_eval
+        if tick_seconds is None:
+            from . import timebase
+            tick_seconds = timebase.tick_seconds()
         self.tick_seconds = tick_seconds
         self.now_newest = now_newest          # callable -> newest publication tick "now" (delay_push)
         n = len(chain)
